@@ -12,6 +12,12 @@ VERIF = Path(__file__).resolve().parent.parent
 
 # id -> (level category, technique, level text, level note, design section)
 CHECKS = {
+    "C01": (
+        "exploration",
+        "Hypothesis search over profile families / grids / wavenumbers against a reference model of the continuous BVP (Riccati equation integrated with DOP853, rtol 1e-11), refinement pairs n, 4n",
+        "Per-mode transfer functions of the solver are compared with an independent integration of the continuous boundary-value problem; the error bound (<= 6 delta) and monotone decrease are asserted on all admitted modes, the 2.5x rate per quartering on r <= 0.5, delta <= 1 (calibrated on the repaired tree over 1660 asserted cases: min ratio 3.27, max E/delta 1.54).",
+        "Asymptotic statement checked at two refinements inside a calibrated regime; growth to the output height <= e^8 so that rounding (~eps*exp(2 growth)) stays negligible; DOP853 reference trusted to 1e-9.",
+    ),
     "C14": (
         "exploration",
         "Hypothesis search over (towers x steps, strategy, workers, parent threads, cache switch, delay table) with harness-owned worker completion order, against serially computed single runs",
